@@ -9,6 +9,9 @@ import glob, json, os, subprocess, sys, time
 
 ENV = dict(os.environ, GOFLAGS="-mod=mod", GOPROXY="off")
 
+# seeded change -> the check(s) that decide it, where that is not the property it was seeded for
+OTHER_CHECK = {"C02-D": ["C14"]}
+
 
 def sh(cmd, cwd=None, timeout=4 * 3600):
     p = subprocess.run(cmd, shell=True, cwd=cwd, env=ENV, stdout=subprocess.PIPE, stderr=subprocess.STDOUT, text=True, timeout=timeout)
@@ -39,12 +42,19 @@ def main():
             res[sid] = {"applies": False, "error": out[-300:]}
             print(sid, "DOES NOT APPLY"); continue
         t0 = time.time()
+        # a change whose violation needs another property's workload is decided by that check
+        checks = OTHER_CHECK.get(sid, [pid])
+        caught, first, rc = False, [], 0
         try:
-            rc, out = sh("./check %s --tier %s" % (pid, tier), cwd="/verif")
+            for cid in checks:
+                rc, out = sh("./check %s --tier %s" % (cid, tier), cwd="/verif")
+                if rc == 1 and ("VIOLATION property=" + cid) in out:
+                    caught = True
+                    first = [cid + ": " + l.strip()[:300] for l in out.splitlines() if l.startswith("  ")][:1]
+                    break
         finally:
             sh("git -C /repo checkout -q -- .")
-        first = [l.strip()[:300] for l in out.splitlines() if l.startswith("  ")][:1]
-        res[sid] = {"applies": True, "exit": rc, "caught": rc == 1 and ("VIOLATION property=" + pid) in out, "wall_s": round(time.time() - t0, 1), "first_violation": first}
+        res[sid] = {"applies": True, "exit": rc, "caught": caught, "checks": checks, "wall_s": round(time.time() - t0, 1), "first_violation": first}
         print(sid, "caught" if res[sid]["caught"] else "MISSED (exit %d)" % rc, first[0][:160] if first else "")
     json.dump({"tier": tier, "repo_head": sh("git -C /repo rev-parse --short HEAD")[1].strip(), "results": res}, open("/verif/seeded/SWEEP.json", "w"), indent=1)
     sh("git -C /verif checkout -q -- evidence 2>/dev/null; git -C /verif clean -fdq evidence/replays", cwd="/verif")
